@@ -6,6 +6,7 @@ import (
 	"fmt"
 	"io"
 	"os"
+	"runtime"
 	"strconv"
 	"strings"
 	"syscall"
@@ -180,81 +181,110 @@ func checkC16(tier string) int {
 	rep := func(sig, format string, a ...interface{}) {
 		run.Report(ev.Violation{Sig: "C16 " + sig, What: fmt.Sprintf(format, a...), Replay: fmt.Sprintf(format, a...)})
 	}
-	// 1. setters
+	// 1. setters - under the process's own execution domain and under the UNAME26 personality (uname(2) then reports a
+	// 2.6.x release: what the library sends does not depend on what the running kernel calls itself).  personality(2) is
+	// per thread: the calls are made on this locked thread.
 	dom := valueDomain(tier)
-	for _, st := range setters() {
-		vals := dom
-		switch st.dom {
-		case "bool":
-			vals = []uint32{0, 1}
-		case "none":
-			vals = []uint32{0, 0, 0, 0, 0, 0} // one evaluation per identity variant below
+	runtime.LockOSThread()
+	oldPersona, _, _ := syscall.Syscall(syscall.SYS_PERSONALITY, 0xffffffff, 0, 0)
+	personaNote := ""
+	baseRep := rep
+	rep = func(sig, format string, a ...interface{}) { baseRep(sig, format+personaNote, a...) }
+	for pi, persona := range []uintptr{oldPersona, oldPersona | 0x0020000} {
+		if pi == 1 {
+			if _, _, e := syscall.Syscall(syscall.SYS_PERSONALITY, persona, 0, 0); e != 0 {
+				run.Set("uname26_personality", fmt.Sprintf("not available: %v", e))
+				break
+			}
+			var u syscall.Utsname
+			_ = syscall.Uname(&u)
+			rel := ""
+			for _, ch := range u.Release {
+				if ch == 0 {
+					break
+				}
+				rel += string(rune(ch))
+			}
+			personaNote = " | process personality UNAME26: uname reports release " + rel
+			run.Set("uname26_personality", "setter pass repeated with uname(2) reporting release "+rel)
 		}
-		for _, wm := range []libaudit.WaitMode{libaudit.WaitForReply, libaudit.NoWait} {
-			for vi, v := range vals {
-				sim := ksim.New(nil)
-				sim.NoDeviations = true
-				c := &libaudit.AuditClient{Netlink: sim}
-				// who the process is does not decide what is sent (the kernel decides what is allowed): every third
-				// value under another identity - not root, another pid
-				identityPid = uint32(syscall.Getpid())
-				switch vi % 6 {
-				case 1:
-					vos.Install(&vos.Env{Uid: vos.Int(1000), Euid: vos.Int(1000), Gid: vos.Int(1000), Egid: vos.Int(1000)})
-				case 2:
-					vos.Install(&vos.Env{Uid: vos.Int(0), Euid: vos.Int(1000), Pid: vos.Int(1), Ppid: vos.Int(0)})
-					identityPid = 1
-				case 3:
-					// a process inside a nested PID namespace (a container): it is pid 1 to itself and to the kernel interface
-					// it talks to, /proc/self/status also shows the ids the outer namespaces know it by
-					vos.Install(&vos.Env{Pid: vos.Int(1), Ppid: vos.Int(0), Files: procSelf(1, []int{24601, 1})})
-					identityPid = 1
-				case 4:
-					vos.Install(&vos.Env{Pid: vos.Int(77), Ppid: vos.Int(1), Files: procSelf(77, []int{70001, 3001, 77})})
-					identityPid = 77
-				case 5:
-					// /proc is not mounted
-					vos.Install(&vos.Env{Files: map[string][]byte{"/proc/self/status": nil, "/proc/self/stat": nil}})
-				}
-				err := st.call(c, v, wm)
-				vos.Uninstall()
-				evals++
-				if err != nil {
-					rep("setter-error:"+st.name, "%s(%d, mode %d) returned %v with a kernel that acknowledges 0", st.name, v, wm, err)
-					continue
-				}
-				if len(sim.Sends) != 1 {
-					rep("setter-request-count:"+st.name, "%s(%d, mode %d) sent %d requests, want 1", st.name, v, wm, len(sim.Sends))
-					continue
-				}
-				s := sim.Sends[0]
-				if s.Type != uapiAuditSet {
-					rep("setter-type:"+st.name, "%s sent message type %d, want AUDIT_SET=1001", st.name, s.Type)
-				}
-				if s.Flags != syscall.NLM_F_REQUEST|syscall.NLM_F_ACK {
-					rep("setter-flags:"+st.name, "%s sent flags %#x, want NLM_F_REQUEST|NLM_F_ACK=0x5", st.name, s.Flags)
-				}
-				if len(s.Data) != sizeofStatus {
-					rep("setter-size:"+st.name, "%s payload is %d bytes, want a full audit_status of %d", st.name, len(s.Data), sizeofStatus)
-					continue
-				}
-				want := make([]byte, sizeofStatus)
-				binary.LittleEndian.PutUint32(want[offMask:], st.mask)
-				binary.LittleEndian.PutUint32(want[st.off:], st.val(v))
-				if string(want) != string(s.Data) {
-					rep("setter-payload:"+st.name, "%s(%d) payload % x, want mask %#x and value %d at offset %d and zeros elsewhere (% x)", st.name, v, s.Data, st.mask, st.val(v), st.off, want)
-				} else if st.val(v) != 0 {
-					nontrivial++
-				}
-				if wm == libaudit.NoWait && sim.Receives != 0 {
-					rep("nowait-receives:"+st.name, "%s in NoWait mode performed %d receives", st.name, sim.Receives)
-				}
-				if wm == libaudit.WaitForReply && (len(sim.Q) != 0 || sim.Receives != 1) {
-					rep("wait-ack-not-consumed:"+st.name, "%s in WaitForReply mode left %d datagrams queued after %d receives", st.name, len(sim.Q), sim.Receives)
+		for _, st := range setters() {
+			vals := dom
+			switch st.dom {
+			case "bool":
+				vals = []uint32{0, 1}
+			case "none":
+				vals = []uint32{0, 0, 0, 0, 0, 0} // one evaluation per identity variant below
+			}
+			for _, wm := range []libaudit.WaitMode{libaudit.WaitForReply, libaudit.NoWait} {
+				for vi, v := range vals {
+					sim := ksim.New(nil)
+					sim.NoDeviations = true
+					c := &libaudit.AuditClient{Netlink: sim}
+					// who the process is does not decide what is sent (the kernel decides what is allowed): every third
+					// value under another identity - not root, another pid
+					identityPid = uint32(syscall.Getpid())
+					switch vi % 6 {
+					case 1:
+						vos.Install(&vos.Env{Uid: vos.Int(1000), Euid: vos.Int(1000), Gid: vos.Int(1000), Egid: vos.Int(1000)})
+					case 2:
+						vos.Install(&vos.Env{Uid: vos.Int(0), Euid: vos.Int(1000), Pid: vos.Int(1), Ppid: vos.Int(0)})
+						identityPid = 1
+					case 3:
+						// a process inside a nested PID namespace (a container): it is pid 1 to itself and to the kernel interface
+						// it talks to, /proc/self/status also shows the ids the outer namespaces know it by
+						vos.Install(&vos.Env{Pid: vos.Int(1), Ppid: vos.Int(0), Files: procSelf(1, []int{24601, 1})})
+						identityPid = 1
+					case 4:
+						vos.Install(&vos.Env{Pid: vos.Int(77), Ppid: vos.Int(1), Files: procSelf(77, []int{70001, 3001, 77})})
+						identityPid = 77
+					case 5:
+						// /proc is not mounted
+						vos.Install(&vos.Env{Files: map[string][]byte{"/proc/self/status": nil, "/proc/self/stat": nil}})
+					}
+					err := st.call(c, v, wm)
+					vos.Uninstall()
+					evals++
+					if err != nil {
+						rep("setter-error:"+st.name, "%s(%d, mode %d) returned %v with a kernel that acknowledges 0", st.name, v, wm, err)
+						continue
+					}
+					if len(sim.Sends) != 1 {
+						rep("setter-request-count:"+st.name, "%s(%d, mode %d) sent %d requests, want 1", st.name, v, wm, len(sim.Sends))
+						continue
+					}
+					s := sim.Sends[0]
+					if s.Type != uapiAuditSet {
+						rep("setter-type:"+st.name, "%s sent message type %d, want AUDIT_SET=1001", st.name, s.Type)
+					}
+					if s.Flags != syscall.NLM_F_REQUEST|syscall.NLM_F_ACK {
+						rep("setter-flags:"+st.name, "%s sent flags %#x, want NLM_F_REQUEST|NLM_F_ACK=0x5", st.name, s.Flags)
+					}
+					if len(s.Data) != sizeofStatus {
+						rep("setter-size:"+st.name, "%s payload is %d bytes, want a full audit_status of %d", st.name, len(s.Data), sizeofStatus)
+						continue
+					}
+					want := make([]byte, sizeofStatus)
+					binary.LittleEndian.PutUint32(want[offMask:], st.mask)
+					binary.LittleEndian.PutUint32(want[st.off:], st.val(v))
+					if string(want) != string(s.Data) {
+						rep("setter-payload:"+st.name, "%s(%d) payload % x, want mask %#x and value %d at offset %d and zeros elsewhere (% x)", st.name, v, s.Data, st.mask, st.val(v), st.off, want)
+					} else if st.val(v) != 0 {
+						nontrivial++
+					}
+					if wm == libaudit.NoWait && sim.Receives != 0 {
+						rep("nowait-receives:"+st.name, "%s in NoWait mode performed %d receives", st.name, sim.Receives)
+					}
+					if wm == libaudit.WaitForReply && (len(sim.Q) != 0 || sim.Receives != 1) {
+						rep("wait-ack-not-consumed:"+st.name, "%s in WaitForReply mode left %d datagrams queued after %d receives", st.name, len(sim.Q), sim.Receives)
+					}
 				}
 			}
 		}
 	}
+	syscall.Syscall(syscall.SYS_PERSONALITY, oldPersona, 0, 0)
+	runtime.UnlockOSThread()
+	personaNote = ""
 	// mixed modes and refused requests on ONE client: every ordered pair of setters x both modes each x the
 	// kernel's verdict on each in {0, EPERM, EINVAL}: whatever the earlier call's mode and fate (an unread
 	// NoWait acknowledgement carrying an errno included), EVERY call puts exactly one well-formed AUDIT_SET
